@@ -22,6 +22,8 @@ def run(project, rep):
     schema = Schema(project)
     schema.check_floors()
     rep.run(S.m1_from_etree, schema, rep)
+    rep.rule("V-R14", "every tag of a valid document names a class the reader can find: each model class used as a child is reachable as ofxtools.models.<TAG> (S-R2)")
+    rep.run(S.s_r2_findable, schema, rep)
     rep.run(S.m2_update_args, schema, rep)
     rep.run(V.v_rules, schema, rep)
     rep.run(V.v_r8_token_tables, project, rep)
@@ -29,6 +31,10 @@ def run(project, rep):
     rep.run(S.s_r9_own_descriptor, schema, rep)
     from .. import rules_unknown as U
     rep.run(U.u_r9_overrides_only_retag, schema, rep)
+    # an unknown tag in between changes nothing for the children after it: the reducer's unknown-tag branch hands back the
+    # accumulator it received (U-R1), and in the loop form no carried state is assigned on the way to it (U-R1b)
+    rep.run_only(("U-R1",), U.u_rules, schema, rep)
+    rep.run(U.u_r1b_loop_state_on_unknown_path, schema, rep)
     from .. import rules_types as T
     rep.run(T.t_r7, project, rep)
     rep.run(T.t_r6b_no_context_arithmetic, project, rep)
@@ -44,6 +50,7 @@ def run(project, rep):
     rep.run(Z.z_r4_conversion, project, rep, utc_label=True)
     rep.run(Z.z_r5_offset_sign, project, rep)
     rep.run(Z.z_r5b_sign_of_zero_hours, project, rep)
+    rep.run(Z.z_r12_zone_table_consistent, project, rep)
     rep.rule("V-R13", "every offset the notation allows (-12 .. +14) reaches the model: the range test of gmt_offset admits exactly that domain (Z-R8)")
     rep.run(Z.z_r8_offset_domain, project, rep)
     rep.run(Z.z_r6_carrier_date, project, rep)
